@@ -61,7 +61,7 @@ func runC15(c *Ctx) {
 		nTrue := 0
 		for _, in := range instrsWhere(fn, isReturn) {
 			ret := in.(*ssa.Return)
-			b, isC := constBool(ret.Results[0])
+			b, isC := constBool(unspill(ret, 0))
 			if !isC {
 				okTrue = false
 				continue
@@ -126,7 +126,7 @@ func runC15(c *Ctx) {
 		// a missing key or value returns an empty list
 		empties := 0
 		for _, in := range instrsWhere(fn, isReturn) {
-			switch r := in.(*ssa.Return).Results[0].(type) {
+			switch r := unspill(in.(*ssa.Return), 0).(type) {
 			case *ssa.MakeSlice:
 				if z, ok := constInt(r.Len); ok && z == 0 {
 					empties++
@@ -208,7 +208,7 @@ func runC15(c *Ctx) {
 		okLast, misses := false, 0
 		for _, in := range instrsWhere(fn, isReturn) {
 			ret := in.(*ssa.Return)
-			if isNilConst(ret.Results[0]) {
+			if isNilConst(unspill(ret, 0)) {
 				misses++
 				continue
 			}
@@ -310,7 +310,7 @@ func runC15(c *Ctx) {
 					okNo = false
 				}
 			}
-			if ret, ok := in.(*ssa.Return); ok && len(ret.Results) == 1 && !isNilConst(ret.Results[0]) {
+			if ret, ok := in.(*ssa.Return); ok && len(ret.Results) == 1 && !isNilConst(unspill(ret, 0)) {
 				okNo = false
 			}
 		})
@@ -435,7 +435,7 @@ func subsetKVSource(c *Ctx, fn *ssa.Function, hs ssa.Value) (ssa.Value, string) 
 			// every return of the predicate is HostMatches(kv, host)
 			var kv ssa.Value
 			for _, in := range instrsWhere(pf, isReturn) {
-				call, ok := in.(*ssa.Return).Results[0].(*ssa.Call)
+				call, ok := unspill(in.(*ssa.Return), 0).(*ssa.Call)
 				if !ok || methodName(call.Common()) != "HostMatches" || call.Common().Args[1] != ssa.Value(pf.Params[0]) {
 					return nil, "predicate does not return HostMatches(kvs, host)"
 				}
